@@ -494,14 +494,28 @@ def libSetItem := dictSetItem "Lib" "Lib.ItemSet"
 def kerningSetItem := dictSetItem "Kerning" "Kerning.PairSet"
 def groupsSetItem := dictSetItem "Groups" "Groups.GroupSet"
 
-/-- `images[name] = data`: `arg 0` = name, `arg 1` = "a validity assertion fails",
-`arg 2` = "name is scheduled for deletion", `arg 3` = "same digest as the stored image" -/
+/-- `images[name] = data` (`_setImage`).  The image set is two sets of file names: `names` = what `in` / `fileNames`
+answer, `sched` = names deleted since the last save (`_scheduledForDeletion`, whose entries keep the stamps of the
+file on disk).  `arg 0` = name, `arg 1` = "a validity assertion fails", `arg 2` = "the data has the digest of the
+entry stored under the name" (the entry in the set, or the one just taken back from the scheduled deletions).
+
+locals: 0 = isNewImage, 2 = the name is scheduled for deletion, 1 = there is an entry to compare with,
+3 = the deleted image itself comes back (repaired in /repo, finding F104: it used to come back unannounced) -/
 def imageSetSetItem : Entry :=
   { id := "ImageSet.__setitem__", cls := "ImageSet", srcCls := "ImageSet", method := "_setImage",
     body := A [reject (arg 1), capture 0 (.not (mem (arg 0) (fld "names"))),
-             when (arg 2) (nested (set "names" (sinsert (fld "names") (arg 0)))),
+             capture 2 (mem (arg 0) (fld "sched")),
+             when (var 2) (reject (mem (arg 0) (fld "names"))),
+             when (var 2) (nested (set "names" (sinsert (fld "names") (arg 0)))),
+             when (var 2) (nested (set "sched" (remove (fld "sched") (arg 0)))),
              capture 1 (mem (arg 0) (fld "names")),
-             guard (.not (.and (var 1) (arg 3))),
+             capture 3 (.and (.and (var 1) (arg 2)) (var 0)),
+             when (var 3) (nested (set "names" (remove (fld "names") (arg 0)))),
+             when (var 3) (post "ImageSet.ImageWillBeAdded" .will (some (arg 0)) none none (mem subj (fld "names"))),
+             when (var 3) (nested (set "names" (sinsert (fld "names") (arg 0)))),
+             when (var 3) (post "ImageSet.ImageAdded" .did (some (arg 0)) none none (mem subj (fld "names"))),
+             when (var 3) dirty,
+             guard (.not (.and (var 1) (arg 2))),
              when (var 1) (nested (set "names" (remove (fld "names") (arg 0)))),
              when (var 0) (post "ImageSet.ImageWillBeAdded" .will (some (arg 0)) none none (mem subj (fld "names"))),
              nested (set "names" (sinsert (fld "names") (arg 0))),
@@ -509,11 +523,13 @@ def imageSetSetItem : Entry :=
              when (.not (var 0)) (post "ImageSet.ImageChanged" .plain (some (arg 0)) none none (mem subj (fld "names"))),
              dirty] }
 
+/-- `del images[name]`: the entry moves to the scheduled deletions -/
 def imageSetDelItem : Entry :=
   { id := "ImageSet.__delitem__", cls := "ImageSet", srcCls := "ImageSet", method := "__delitem__",
     body := A [reject (.not (mem (arg 0) (fld "names"))),
              post "ImageSet.ImageWillBeDeleted" .will (some (arg 0)) none none (mem subj (fld "names")),
              nested (set "names" (remove (fld "names") (arg 0))),
+             nested (set "sched" (sinsert (fld "sched") (arg 0))),
              post "ImageSet.ImageDeleted" .did (some (arg 0)) none none (mem subj (fld "names")),
              dirty] }
 
